@@ -342,3 +342,61 @@ func Verif_C07_ManyTwice(npkg, ngen, ntype int) {
 	}
 	verifsym.Reach("end")
 }
+
+// vGenHuge renders kb KiB of comment lines and then, symbolically, either a
+// valid declaration or text that is not parseable Go.
+type vGenHuge struct {
+	kb  int
+	bad bool
+}
+
+func (g *vGenHuge) Name() string { return "huge" }
+
+func (g *vGenHuge) New(c Context) Generator { return &vGenHuge{kb: g.kb, bad: g.bad} }
+
+func (g *vGenHuge) GenerateType(c Context, t *types.Named) error {
+	line := "// 0123456789abcdef0123456789abcdef0123456789abcdef0123456789a\n" // 64 bytes
+	block := ""
+	for i := 0; i < 16; i++ {
+		block += line
+	}
+	// 1 KiB per block
+	for i := 0; i < g.kb; i++ {
+		c.Render(snippetBlock(block))
+	}
+	if g.bad {
+		c.Render(snippetBlock("\nvar !!SYNTAX!! = }{\n"))
+	} else {
+		c.Render(snippetBlock("\nvar ok_huge = 1\n"))
+	}
+	return nil
+}
+
+// Verif_C02_HugeBody(kb): a generator whose rendering is kb KiB long and,
+// symbolically, ends in unparseable text: Execute then returns an error, the old
+// file is byte-identical and gengo.sum untouched; otherwise the file is written.
+func Verif_C02_HugeBody(kb int) {
+	vReset()
+	w := vNewWorld()
+	w.addPkg("p", true, "h1:new-p", nil, []string{"p.go", vBase + ".huge.go"}, []vTypeSpec{{name: "A", tags: map[string][]string{"gengo:huge": {"true"}}}})
+	sumPath := w.root + "/gengo.sum"
+	verifsym.FSPut(sumPath, "example.com/m/p h1:old\n")
+	before := vSnapshot()
+	bad := verifsym.Bool()
+	err := w.exec(true, true, nil, &vGenHuge{kb: kb, bad: bad})
+	after := vSnapshot()
+	f := vGenFile(w, "p", "huge")
+	if bad {
+		verifsym.Assert(err != nil, "a generator rendered unparseable text but Execute returned nil")
+		verifsym.Assert(after[f] == before[f], "the previous output of the failing generator was modified or removed")
+		verifsym.Assert(after[sumPath] == before[sumPath], "gengo.sum rewritten although the run failed")
+	} else {
+		verifsym.Assert(err == nil, "Execute fails although no generator failed")
+		d := after[f]
+		if len(d) > 40 {
+			d = d[len(d)-40:]
+		}
+		verifsym.Assert(vHasSub(d, "ok_huge"), "a rendered declaration is missing from the generator's file")
+	}
+	verifsym.Reach("end")
+}
